@@ -10,7 +10,7 @@ uncancel around absorbed AnyIO cancellations).
 
 from __future__ import annotations
 
-from .. import treecheck
+from .. import native_twins, treecheck, treefam
 
 PROPERTY = "C05"
 LEVEL = "exploration"
@@ -32,24 +32,39 @@ SHARD_TIMEOUT = {"quick": 300, "thorough": 1500}
 
 
 def all_cases(tier: str, seed: int):  # noqa: ANN201
-    yield from treecheck.cases("c05", tier, seed, 4000, 60000)
+    yield from native_twins.cases()
+    yield from treecheck.cases("c05", tier, seed, 4000, 60000, extra=treefam.scope_histories)
 
 
 def shards(tier: str, seed: int) -> list[dict]:
     return treecheck.shards(tier, seed)
 
 
+def judge(case: dict, col) -> None:  # noqa: ANN001
+    if case.get("t") in ("twin", "native_through"):
+        res = native_twins.execute(case)
+        col.case(res["sig"], True, sample={"case": case, "outcomes": res["log_tail"]})
+        for k, v in res["windows"].items():
+            col.count("window:" + k, v)
+
+        for _p, clause, detail in res["viol"]:
+            col.violation(clause, detail, case)
+    else:
+        treecheck.judge(PROPERTY, case, col)
+
+
 def run_shard(desc: dict, col) -> None:  # noqa: ANN001
     for i, case in enumerate(all_cases(desc["tier"], desc["seed"])):
         if i % desc["of"] == desc["shard"]:
-            treecheck.judge(PROPERTY, case, col)
+            judge(case, col)
 
 
 def replay(case: dict, col) -> None:  # noqa: ANN001
-    treecheck.judge(PROPERTY, case, col)
+    judge(case, col)
 
 
 def finish(col, tier: str) -> None:  # noqa: ANN001
-    for k in ['window:residue_checked_at_scope_exit', 'window:exited_scope_handles_checked', 'window:scope_exit_with_cancellation']:
+    for k in ['window:twin:timeout_firing', 'window:native_cancel_through_cancelled_scope',
+              'window:residue_checked_at_scope_exit', 'window:exited_scope_handles_checked', 'window:scope_exit_with_cancellation']:
         if not col.counters.get(k):
             col.inconclusive_because(f"deciding window never reached: {k}")
